@@ -68,29 +68,12 @@ theorem flatInsert_empty_inv (S : Schema) (mid : List Node) (p : Option TypeId) 
     c = mid ∧ ∀ t, p = some t → S.validContent t mid = true := by
   have hgo : fappend (fappend [] mid) [] = mid := by
     cases mid <;> simp [fappend]
-  cases p with
-  | none =>
-    simp [flatInsert, fcut, hgo] at h
-    exact ⟨h.symm, fun t ht => by simp at ht⟩
-  | some t =>
-    cases hcr : S.canReplace t [] 0 0 mid 0 mid.length with
-    | none => simp [flatInsert, hcr] at h
-    | some b =>
-      cases b with
-      | false => simp [flatInsert, hcr] at h
-      | true =>
-        simp [flatInsert, hcr, fcut, hgo] at h
-        refine ⟨h.symm, fun t' ht' => ?_⟩
-        simp only [Option.some.injEq] at ht'
-        subst ht'
-        simp only [Schema.canReplace, Schema.contentMatchAt, List.take_nil, Schema.types, List.map_nil, Dfa.run,
-          List.drop_zero, List.take_length, List.drop_nil] at hcr
-        simp only [Schema.validContent, Dfa.accepts, Schema.types]
-        split at hcr
-        · simp at hcr
-        · rename_i q1 hq1
-          rw [hq1]
-          simpa using hcr
+  obtain ⟨l, r, hl, hr, rfl, hv⟩ := flatInsert_ok_iff.1 h
+  have el : l = [] := by simpa [fcut] using hl.symm
+  have er : r = [] := by simpa [fcut] using hr.symm
+  subst el er
+  rw [hgo] at hv ⊢
+  exact ⟨rfl, hv⟩
 
 /-- **if the insertion into the nest succeeds, it filled the innermost wrapper**, and that wrapper
     accepts the inserted nodes (types and marks) -/
@@ -124,7 +107,8 @@ theorem insertInto_wrapNest_inv (S : Schema) (mid : List Node) :
 theorem insertAt_wrapNest_inv (S : Schema) (mid : List Node) (as : List (TypeId × Attrs)) (insd : Slice)
     (h : Slice.insertAt S ⟨wrapNest as [], 0, 0⟩ as.length mid = .ok (some insd)) :
     insd = ⟨wrapNest as mid, 0, 0⟩ ∧ ∀ w, as.getLast? = some w → S.validContent w.1 mid = true := by
-  simp only [Slice.insertAt, Nat.add_zero] at h
+  rw [insertAt_of_le (insertAt_ok h).1] at h
+  simp only [Slice.insertAtIn, Nat.add_zero] at h
   cases hr : insertInto S mid none (wrapNest as []) as.length 0 (wrapNest as []) as.length 0 0 with
   | error e => simp [hr] at h
   | ok o =>
@@ -292,7 +276,8 @@ theorem nodeAtKids_lvl (tyN : TypeId) (aN : Attrs) (mN : Marks) (kN : List Node)
 theorem insertAt_single_inv (S : Schema) (ty : TypeId) (a : Attrs) (m : Marks) (k : List Node) (insd : Slice)
     (h : Slice.insertAt S ⟨[.elem ty a m []], 0, 0⟩ 1 k = .ok (some insd)) :
     insd = ⟨[.elem ty a m k], 0, 0⟩ ∧ S.validContent ty k = true := by
-  simp only [Slice.insertAt, Nat.add_zero] at h
+  rw [insertAt_of_le (insertAt_ok h).1] at h
+  simp only [Slice.insertAtIn, Nat.add_zero] at h
   unfold insertInto at h
   rw [if_neg (by omega), if_neg (by simp)] at h
   simp only [Nat.lt_irrefl, decide_false, Bool.false_and, Bool.or_self, Bool.false_eq_true, if_false,
